@@ -90,3 +90,41 @@ Fixpoint scan_fields (k : nat) (s : list Z) (got : list Z) : Z * list Z :=
 Definition api_gmp_scan_partial : api := fun a =>
   let '(cnt, got) := scan_fields 3 (argb a 1) [] in
   TZ cnt :: map TZ (got ++ repeat (-5) (3 - length got)).
+
+(* ---- %Fe / %Ff: certificate evaluated on the library's output (doprntf.c is not modelled):
+   ffmtcheck conv P width mant e2 out : out is [blanks][-]digits[.digits][e+-dd] of the right shape for the
+   conversion with P digits after the point, at least width bytes, and the decimal number it spells is within
+   half a unit (plus one part in a thousand) of its last digit of |mant * 2^e2|; the sign agrees ---- *)
+Fixpoint skip_blanks (s : list Z) : list Z := match s with 32 :: r => skip_blanks r | _ => s end.
+Fixpoint split_digits (s : list Z) (acc : list Z) : list Z * list Z :=
+  match s with c :: r => if is_digit c then split_digits r (c :: acc) else (rev acc, s) | [] => (rev acc, []) end.
+Definition dec_val (ds : list Z) : Z := fold_left (fun a c => a * 10 + (c - 48)) ds 0.
+Definition api_ffmtcheck : api := fun t =>
+  let conv := argz t 0 in let P := argz t 1 in let width := argz t 2 in let mant := argz t 3 in let e2 := argz t 4 in
+  let out := argb t 5 in
+  let s := skip_blanks out in
+  let neg := hd0 s =? 45 in
+  let s := if neg || (hd0 s =? 43) then tl0 s else s in
+  let '(ip, s) := split_digits s [] in
+  let '(fp, s) := match s with 46 :: r => split_digits r [] | _ => ([], s) end in
+  let '(ex, exdigits, s) :=
+    match s with
+    | 101 :: r => let eneg := hd0 r =? 45 in
+                  let r := if eneg || (hd0 r =? 43) then tl0 r else r in
+                  let '(ed, r') := split_digits r [] in ((if eneg then - dec_val ed else dec_val ed), len ed, r')
+    | _ => (0, 0, s)
+    end in
+  let s := skip_blanks s in
+  let shape :=
+    match s with [] => true | _ => false end
+    && negb (Nat.eqb (length ip) 0) && (len fp =? P) && (width <=? len out)
+    && (if conv =? 101 then (len ip =? 1) && (2 <=? exdigits) && ((mant =? 0) || negb (hd0 ip =? 48)) else exdigits =? 0)
+    && (Bool.eqb neg (mant <? 0) || (mant =? 0)) in
+  (* |D - v| * 2 <= ulp * 1.001 with D = digits * 10^(ex - P), v = |mant| 2^e2, ulp = 10^(ex - P); all scaled to integers *)
+  let D := dec_val (ip ++ fp) in
+  let k := ex - P in                                   (* D * 10^k *)
+  let vn := Z.abs mant * (if 0 <=? e2 then 2 ^ e2 else 1) in let vd := if 0 <=? e2 then 1 else 2 ^ (- e2) in
+  let un := if 0 <=? k then 10 ^ k else 1 in let ud := if 0 <=? k then 1 else 10 ^ (- k) in   (* ulp = un / ud *)
+  (* |D un / ud - vn / vd| * 2000 <= 1001 un / ud   <=>   |D un vd - vn ud| * 2000 <= 1001 un vd *)
+  let ok := Z.abs (D * un * vd - vn * ud) * 2000 <=? 1001 * un * vd in
+  [TZ (b2z (shape && ok))].
